@@ -166,7 +166,9 @@ def run_check(engine, prop, tier, seed, runs=None, budget_s=None,
     agg = Aggregate()
     if hasattr(engine, "sample_view"):
         agg.sample_view = engine.sample_view
-    res = pool.run_pool(one, nruns, W, timeout_s, budget)
+    res = pool.run_pool(one, nruns, W, timeout_s, budget,
+                        worker_init=getattr(engine, "worker_init", None),
+                        worker_fini=getattr(engine, "worker_fini", None))
     for k in sorted(res):
         agg.add(k, res[k])
     t_batch = time.monotonic() - t0
@@ -303,13 +305,13 @@ def run_check(engine, prop, tier, seed, runs=None, budget_s=None,
                               agg.violation_runs, len(reported),
                               len(known_hit), len(agg.harness_errors), wall),
               flush=True)
+    for k, msg, tb in agg.harness_errors[:5]:
+        print("HARNESS-ERROR property=%s run=%s %s" % (prop, k, msg))
+        if tb:
+            print(tb[-3000:])
     if reported:
         return 1
     if agg.harness_errors:
-        for k, msg, tb in agg.harness_errors[:5]:
-            print("HARNESS-ERROR property=%s run=%s %s" % (prop, k, msg))
-            if tb:
-                print(tb[-3000:])
         return 2
     if agg.runs == 0:
         print("HARNESS-ERROR property=%s no run completed" % prop)
